@@ -509,6 +509,7 @@ func C01Workloads() []harness.Workload {
 		signWorkload("dkls23-softspoken-k256", 6, 400),
 		signWorkload("dkls23-softspoken-p256", 3, 200),
 		signWorkload("lindell22-mina", 8, 800),
+		{Name: "lockstep-lindell22", Quick: 16, Thorough: 2000, Run: runLockstepFlavor},
 		signWorkload("boldyreva-short", 12, 400),
 		signWorkload("boldyreva-long", 12, 400),
 		signWorkload("lindell17", 4, 120),
